@@ -23,6 +23,10 @@ import (
 	client "github.com/liftbridge-io/liftbridge-api/v2/go"
 )
 
+// vC14Castagnoli: the checksum the envelope format documents (CRC-32C), computed with the harness's OWN table - never with a
+// table of the implementation, so that a checksum function changed there shows as correct envelopes refused / wrong ones accepted
+var vC14Castagnoli = crc32.MakeTable(crc32.Castagnoli)
+
 func c14ErrEnum(err error) string {
 	if err == nil {
 		return ""
@@ -280,7 +284,7 @@ func TestVerifC14(t *testing.T) {
 							}
 							// correct CRC variant when the header has room for it
 							if flags&1 == 1 && hl == 12 && n >= 12 && rnd.Bool() {
-								c := crc32.Checksum(d[12:], crc32cTable)
+								c := crc32.Checksum(d[12:], vC14Castagnoli)
 								Encoding.PutUint32(d[8:], c)
 							}
 							expect := byte(ty)
@@ -356,10 +360,17 @@ func TestVerifC14(t *testing.T) {
 				res.Fail(vFailure{Kind: "spec", Case: []string{lines[2*i]}, Impl: []string{implCheck}, Detail: "accepted payload is not the envelope's payload", Tag: "envelope-wrong-payload"})
 			}
 			if c.data[6]&1 == 1 {
-				if hl != 12 || crc32.Checksum(c.data[12:], crc32cTable) != Encoding.Uint32(c.data[8:12]) {
+				if hl != 12 || crc32.Checksum(c.data[12:], vC14Castagnoli) != Encoding.Uint32(c.data[8:12]) {
 					res.Fail(vFailure{Kind: "spec", Case: []string{lines[2*i]}, Impl: []string{implCheck}, Detail: "checksum mismatch accepted", Tag: "envelope-crc-accepted"})
 				}
 			}
+		}
+		// ... and the converse: "a payload whose optional checksum does not match is rejected" - one whose checksum IS the
+		// documented CRC-32C of its payload must not be refused for its checksum ("decoded as exactly the envelope it encodes")
+		if implCheck == "err crc" && len(c.data) >= 12 && c.data[5] == 12 && c.data[6]&1 == 1 &&
+			crc32.Checksum(c.data[12:], vC14Castagnoli) == Encoding.Uint32(c.data[8:12]) {
+			res.Fail(vFailure{Kind: "spec", Case: []string{lines[2*i]}, Impl: []string{implCheck}, Model: []string{mCheck},
+				Detail: "an envelope whose checksum is the CRC-32C of its payload is refused with a checksum mismatch", Tag: "envelope-crc-refused"})
 		}
 		// classification on the publish path (type 0): pbok from the real protobuf decoder on the model's payload
 		if c.ty == 0 {
